@@ -18,14 +18,18 @@ THEOREMS = ["C36_canon_rel_total", "C36_canon_idempotent", "C36_canon_idempotent
             "C36_run_report_order_independent",
             "C36_canon_perm_invariant_repaired", "C36_canon_idempotent_repaired", "C36_run_report_order_independent_repaired",
             "C36_run_report_leaves_task_diagnostics_unchanged", "C36_run_heap_rerun_same", "C36_run_heap_is_run_report",
-            "C36_run_alias_changes_task"]
+            "C36_run_alias_changes_task",
+            "C36_run_walk_is_dependency_closure", "C36_run_walk_history_independent"]
 AXIOMS_OK = []
 TRUSTED = ["hand-written Gallina model of Report.Canonicalize (Model/Canon.v): the sort is a relation (any sorted permutation), "
            "marking and deletion are functions as written",
            "correspondence harness (harness/cmd/canon) + verif hook report.VerifNewDiagnostic/VerifViewDiagnostic",
            "incremental.Run is modelled as: the diagnostic slices of the visited tasks, each once, appended in some order to a report slice "
            "(heap of backing arrays, append in place or reallocating, any growth policy), then Canonicalize in place; "
-           "that each task's own report is a function of the inputs is exercised (parallelism 1..8, repeated, re-run on the same executor), not proved"]
+           "that each task's own report is a function of the inputs is exercised (parallelism 1..8, repeated, re-run on the same executor), not proved",
+           "which tasks a Run visits is modelled by a hand-written event system over the forward edges (Model/Canon.v Section RunWalk: a running task "
+           "records the edge to every dependency it asks for, memoised or not, before it can complete); it is tied to the code only by the history "
+           "oracle (every step of a history of Runs on one executor reports what a fresh executor reports), not by a correspondence inside coqc"]
 ASSUMPTIONS = ["permutation invariance is proved under keys_injective: no two different diagnostics of the list agree on all six sort keys "
                "(path of primary span, sortOrder, start, end, tag, message); without it the statement is false (C36_canon_perm_invariant_needs_injective)",
                "idempotence is proved under no_sentinel: no diagnostic has level -1, the value Canonicalize uses as its deletion mark "
